@@ -468,6 +468,18 @@ func genListing(r *Rng, in *goproInput) {
 			in.Listing = append(in.Listing, nameUniverse[i])
 		}
 	}
+	if r.Chance(0.15) {
+		// one video number in both naming conventions (two cameras, or a renamed file): still ONE group per number
+		n := 20 + r.Intn(5)
+		mixed := [][]string{
+			{fmt.Sprintf("GOPR%04d.mp4", n), fmt.Sprintf("GH01%04d.mp4", n)},
+			{fmt.Sprintf("GOPR%04d.mp4", n), fmt.Sprintf("GX01%04d.mp4", n), fmt.Sprintf("GP02%04d.mp4", n)},
+			{fmt.Sprintf("GH01%04d.mp4", n), fmt.Sprintf("GP02%04d.mp4", n)},
+			{fmt.Sprintf("GOPR%04d.mp4", n), fmt.Sprintf("GX02%04d.mp4", n)}, // gap: chapter 01 missing
+			{fmt.Sprintf("GH01%04d.mp4", n), fmt.Sprintf("GX01%04d.mp4", n)}, // duplicate chapter
+		}
+		in.Listing = append(in.Listing, Pick(r, mixed)...)
+	}
 	// no duplicates
 	seenL := map[string]bool{}
 	var ded []string
